@@ -157,6 +157,16 @@ class Sim(Layout):
         txt = ast.unparse(node)
         if txt in self.truth:
             return self.truth[txt]
+        # membership in a scenario table keyed by frozen tokens
+        if isinstance(node, ast.Compare) and len(node.ops) == 1 and isinstance(node.ops[0], (ast.In, ast.NotIn)):
+            b = self.ev(node.comparators[0], env, fi)
+            if isinstance(b, dict):
+                a = self.ev(node.left, env, fi)
+                try:
+                    r = freeze(a) in b or (not isinstance(a, (Sym, Obj, list, dict)) and a in b)
+                except TypeError:
+                    r = False
+                return r if isinstance(node.ops[0], ast.In) else not r
         return Layout.test(self, node, env, fi)
 
     def _call_args(self, n, env, fi):
@@ -227,6 +237,26 @@ class Sim(Layout):
                 r = self.hooks["*callable"](self, v, args, kwargs, n)
                 if r is not NotImplemented:
                     return r
+        # small helper classes of the repository are instantiated and their methods followed (objects of the simulated code)
+        if isinstance(f, ast.Name) and f.id in self.prog.classes and f.id not in env and f.id not in self.hooks and getattr(self, "follow_classes", True):
+            k = self.prog.classes[f.id]
+            if not k.bases and "__init__" in k.methods and len(k.methods) <= 8:
+                self.counter += 1
+                obj = Obj("%s#%d" % (f.id, self.counter), {})
+                obj.cls = f.id
+                args, kwargs = self._call_args(n, env, fi)
+                self.call_function(k.methods["__init__"], [obj] + args, kwargs)
+                return obj
+        if isinstance(f, ast.Attribute) and not (self.hooks.get(full) or self.hooks.get(name)):
+            try:
+                ro = self.ev(f.value, env, fi)
+            except LayoutUnknown:
+                ro = None
+            if isinstance(ro, Obj) and getattr(ro, "cls", None) in self.prog.classes:
+                g = self.prog.resolve(ro.cls, f.attr)
+                if g is not None and self.depth < 10:
+                    args, kwargs = self._call_args(n, env, fi)
+                    return self.call_function(g, [ro] + args, kwargs)
         # methods of the simulated object itself are followed into the repository's code (self_class set by the scenario)
         if isinstance(f, ast.Attribute) and getattr(self, "self_class", None) and not (self.hooks.get(full) or self.hooks.get(name)):
             try:
@@ -462,6 +492,10 @@ class Sim(Layout):
             return out
         return Layout.iterable(self, v, st)
 
+    def _e_DictComp(self, n, env, fi):
+        pairs = self._e_ListComp(ast.ListComp(elt=ast.Tuple(elts=[n.key, n.value], ctx=ast.Load()), generators=n.generators), env, fi)
+        return {freeze(k): v for k, v in pairs}
+
     def _e_GeneratorExp(self, n, env, fi):
         return self._e_ListComp(n, env, fi)
 
@@ -504,6 +538,9 @@ class Sim(Layout):
 
     def _e_Subscript(self, n, env, fi):
         o = self.ev(n.value, env, fi)
+        import collections
+        if isinstance(o, collections.defaultdict) and isinstance(n.ctx, ast.Load) and not isinstance(n.slice, ast.Slice):
+            return o[freeze(self.ev(n.slice, env, fi))]        # a missing key creates its default, as in Python
         if isinstance(o, RowMat):
             sl = n.slice
             rows = sl
